@@ -29,6 +29,21 @@ Theorem C11_mdelete_atomic :
 Proof. exact mdelete_atomic. Qed.
 Print Assumptions C11_mdelete_atomic.
 
+(** the steps of the worker's put (admission | store insert, and with a time-to-live | index registration), back
+   to back, are the atomic worker step *)
+Theorem C11_mput_atomic :
+  forall cfg orc ms k v id h w ttl a q,
+  wdel ms = None -> wpending (win ms) = None -> worker (mbase ms) = Alive ->
+  queue (mbase ms) = (match ttl with None => CPut k v id h w | Some t => CPutTTL k v id h w t end, a) :: q ->
+  let r1 := mworker1 cfg ms orc in
+  let r2 := if stopped (snd r1) then mworker2 cfg (fst r1) else r1 in
+  let r3 := if stopped (snd r2) then mworker2 cfg (fst r2) else r2 in
+  let atomic := worker_step cfg orc (mbase ms) in
+  mbase (fst r3) = fst atomic /\ snd r3 = snd atomic /\ wdel (fst r3) = None /\ cps (fst r3) = cps ms /\
+  ups (win (fst r3)) = ups (win ms) /\ wpending (win (fst r3)) = None.
+Proof. exact mput_atomic. Qed.
+Print Assumptions C11_mput_atomic.
+
 (** a micro schedule whose calls are not overtaken (each call's micro steps run back to back; in between, any
    events of the window model) reaches exactly the states of the window model with those calls as atomic events; together
    with [atomic_schedule_refines] (Window.v without overtaking = Model.v) every theorem about Model.v transfers *)
